@@ -22,6 +22,8 @@
      loader/instantiate.go:13 InstantiatePuppetType (+ px.AddTypes px/context.go:114, internal/context.go:238
                              resolveTypes, :268 resolveTypeSet, types/resolver.go:34 loadType) -> inst_type
      loader/dependency.go:29 dependencyLoader.LoadEntry, :47 find                 -> dep_load_entry / dep_find
+     loader/loader.go:198    parentedLoader.LoadEntry of a file-based loader whose parent is a file-based loader
+                             (environment <- module <- ...: TopChain)              -> chain_load_entry
 
    A directory is what filepath.Walk lists below a loader root (the OS is the oracle for the set of paths and
    their order): relative path, is-directory flag, and a content class.  Names are Go strings (bytes); every
@@ -174,7 +176,10 @@ Record modl := {
   m_walk : list file    (* filepath.Walk of the loader root, in order *)
 }.
 
-Inductive topk := TopSingle | TopDep.   (* mods[0] alone | px.NewDependencyLoader over all *)
+(* mods[0] alone | px.NewDependencyLoader over all | mods[0] is the top loader, the parent of the loader of
+   mods[i] is the loader of mods[i+1] (px.NewFileBasedLoader(<loader of mods[i+1]>, ...)), the parent of the last
+   one is the system loader *)
+Inductive topk := TopSingle | TopDep | TopChain.
 
 Record world := {
   w_top : topk;
@@ -411,15 +416,27 @@ Section World.
 
   Definition content_at (i : nat) (p : str) : option file := file_at (mod_at i) p.
 
-  (* filebased.go:315 *)
-  Definition mod_has (i : nat) (k : str) : bool :=
-    match shadow k with Some _ => true | None =>
-      match find_existing_path i k with Some _ => true | None => false end end.
+  (* the number of file-based loaders above the loader of module i (its parent, the parent's parent, ...) *)
+  Definition n_parents (i : nat) : nat :=
+    match w_top w with TopChain => length (w_mods w) - S i | _ => 0 end.
 
-  (* filebased.go:286, type namespace, minus what the parent discovers; names as TypedNameFromMapKey gives them *)
-  Definition mod_discover (i : nat) : list str :=
-    sort_strs (filter (fun k => match shadow k with Some _ => false | None => true end)
-                      (map fst (nth i ixs []))).
+  (* filebased.go:315: the parent's HasEntry first (a file-based loader again for np > 0, else what the system
+     loader binds), then the own index *)
+  Fixpoint chain_has (np : nat) (i : nat) (k : str) : bool :=
+    (match np with
+     | 0 => match shadow k with Some _ => true | None => false end
+     | S np' => chain_has np' (S i) k
+     end) || match find_existing_path i k with Some _ => true | None => false end.
+  Definition mod_has (i : nat) (k : str) : bool := chain_has (n_parents i) i k.
+
+  (* filebased.go:286, type namespace, minus what the system loader discovers; names as TypedNameFromMapKey gives
+     them: what the parent discovers, then the keys of the own index that the parent does not have *)
+  Fixpoint chain_discover (np : nat) (i : nat) : list str :=
+    match np with
+    | 0 => filter (fun k => match shadow k with Some _ => false | None => true end) (map fst (nth i ixs []))
+    | S np' => chain_discover np' (S i) ++ filter (fun k => negb (chain_has np' (S i) k)) (map fst (nth i ixs []))
+    end.
+  Definition mod_discover (i : nat) : list str := sort_strs (chain_discover (n_parents i) i).
 
   (* dependency.go:11: module name -> loader, later loaders replace earlier ones *)
   Definition dep_index_get (nm : str) : option nat :=
@@ -446,7 +463,7 @@ Section World.
                | Some i => set_entry_m i k None                 (* instantiationLoader.SetEntry -> definer *)
                | None => match cl_ctx cl with
                          | Some j => kid_add_m j k
-                         | None => match w_top w with TopSingle => set_entry_m 0 k None | TopDep => dep_set_m k None end
+                         | None => match w_top w with TopDep => dep_set_m k None | _ => set_entry_m 0 k None end
                          end
                end ;;
           ret None
@@ -557,20 +574,38 @@ Section World.
         | Fuel => out_of_fuel
         end.
 
-    (* filebased.go:79 (parentedLoader.LoadEntry first: the parent, then the own entries) *)
+    (* filebased.go:79 after the parent gave no value: the own entries (loader.go:202), find, cache the miss *)
+    Definition mod_load_own (cl : ctxl) (i : nat) (k : str) : M eres :=
+      e0 <- get_entry_m i k ;;
+      match e0 with
+      | Some _ => ret e0
+      | None =>
+          r <- find cl i k ;;
+          match r with
+          | None => _ <- set_entry_m i k None ;; ret (Some None)
+          | Some _ => ret r
+          end
+      end.
+
+    (* filebased.go:79 (parentedLoader.LoadEntry first: the parent, then the own entries); the parent is the
+       system loader *)
     Definition mod_load_entry (cl : ctxl) (i : nat) (k : str) : M eres :=
       match shadow k with
       | Some nm => ret (Some (Some (shadow_val nm)))
-      | None =>
-          e0 <- get_entry_m i k ;;
-          match e0 with
-          | Some _ => ret e0
-          | None =>
-              r <- find cl i k ;;
-              match r with
-              | None => _ <- set_entry_m i k None ;; ret (Some None)
-              | Some _ => ret r
-              end
+      | None => mod_load_own cl i k
+      end.
+
+    (* the same for a loader with np file-based loaders above it: loader.go:198 asks the parent (the loader of
+       module i+1) first and keeps its answer only when it holds a value — whatever the loader itself has cached
+       comes second *)
+    Fixpoint chain_load_entry (np : nat) (cl : ctxl) (i : nat) (k : str) : M eres :=
+      match np with
+      | 0 => mod_load_entry cl i k
+      | S np' =>
+          pe <- chain_load_entry np' cl (S i) k ;;
+          match pe with
+          | Some (Some _) => ret pe
+          | _ => mod_load_own cl i k
           end
       end.
 
@@ -617,6 +652,7 @@ Section World.
       match w_top w with
       | TopSingle => mod_load_entry cl 0 k
       | TopDep => dep_load_entry cl k
+      | TopChain => chain_load_entry (length (w_mods w) - 1) cl 0 k
       end.
 
     (* the loader of the calling context: the top loader, or a child of it (loader.go:185) *)
